@@ -893,6 +893,284 @@ SIXTH = [
       edits=handed(VA_HANDED.replace('checkAuthenticity(', 'CheckAuthenticity('))),
 ]
 
+# ---------------------------------------------------------------------------------------------------------------------------
+# fourth pass (extra_c03.go, "the loader's inputs as values"): class "parameter object / function -> method". What used to be the
+# typed loader's parameters travels in an unexported struct (receiver or options argument, by value or by pointer, built by a
+# literal, field by field, or by a constructor); the cut at ':' may be written with IndexByte + slicing.
+PO_W1_BASE = r"""func loadX509TrustStores(ctx context.Context, scheme signature.SigningScheme, policyName string, trustStores []string, x509TrustStore truststore.X509TrustStore) ([]*x509.Certificate, error) {
+	var typeToLoad truststore.Type
+	switch scheme {
+	case signature.SigningSchemeX509:
+		typeToLoad = truststore.TypeCA
+	case signature.SigningSchemeX509SigningAuthority:
+		typeToLoad = truststore.TypeSigningAuthority
+	default:
+		return nil, truststore.TrustStoreError{Msg: fmt.Sprintf("error while loading the trust store, unrecognized signing scheme %q", scheme)}
+	}
+	return loadX509TrustStoresWithType(ctx, typeToLoad, policyName, trustStores, x509TrustStore)
+}
+"""
+PO_W2_BASE = r"""func loadX509TSATrustStores(ctx context.Context, scheme signature.SigningScheme, policyName string, trustStores []string, x509TrustStore truststore.X509TrustStore) ([]*x509.Certificate, error) {
+	var typeToLoad truststore.Type
+	switch scheme {
+	case signature.SigningSchemeX509:
+		typeToLoad = truststore.TypeTSA
+	default:
+		return nil, truststore.TrustStoreError{Msg: fmt.Sprintf("error while loading the TSA trust store, signing scheme must be notary.x509, but got %s", scheme)}
+	}
+	return loadX509TrustStoresWithType(ctx, typeToLoad, policyName, trustStores, x509TrustStore)
+}
+"""
+PO_G_BASE = r"""func loadX509TrustStoresWithType(ctx context.Context, trustStoreType truststore.Type, policyName string, trustStores []string, x509TrustStore truststore.X509TrustStore) ([]*x509.Certificate, error) {
+	processedStoreSet := set.New[string]()
+	var certificates []*x509.Certificate
+	for _, trustStore := range trustStores {
+		if processedStoreSet.Contains(trustStore) {
+			// we loaded this trust store already
+			continue
+		}
+
+		storeType, name, found := strings.Cut(trustStore, ":")
+		if !found {
+			return nil, truststore.TrustStoreError{Msg: fmt.Sprintf("error while loading the trust store, trust policy statement %q is missing separator in trust store value %q. The required format is <TrustStoreType>:<TrustStoreName>", policyName, trustStore)}
+		}
+		if trustStoreType != truststore.Type(storeType) {
+			continue
+		}
+
+		certs, err := x509TrustStore.GetCertificates(ctx, trustStoreType, name)
+		if err != nil {
+			return nil, err
+		}
+		certificates = append(certificates, certs...)
+		processedStoreSet.Add(trustStore)
+	}
+	return certificates, nil
+}
+"""
+PO_NOSET = (H, '\tset "github.com/notaryproject/notation-go/internal/container"\n', '')
+PO_TYPE = r"""type trustStoreSelection struct {
+	policyName     string
+	trustStores    []string
+	x509TrustStore truststore.X509TrustStore
+}
+
+"""
+PO_MK = "selection := trustStoreSelection{policyName: policyName, trustStores: trustStores, x509TrustStore: x509TrustStore}"
+# by-value receiver, direct returns (one loader call per case), guard clause in the tsa wrapper
+PO_W1 = PO_TYPE + r"""func loadX509TrustStores(ctx context.Context, scheme signature.SigningScheme, policyName string, trustStores []string, x509TrustStore truststore.X509TrustStore) ([]*x509.Certificate, error) {
+	""" + PO_MK + r"""
+	switch scheme {
+	case signature.SigningSchemeX509:
+		return selection.certificatesOfType(ctx, truststore.TypeCA)
+	case signature.SigningSchemeX509SigningAuthority:
+		return selection.certificatesOfType(ctx, truststore.TypeSigningAuthority)
+	}
+	return nil, truststore.TrustStoreError{Msg: fmt.Sprintf("error while loading the trust store, unrecognized signing scheme %q", scheme)}
+}
+"""
+PO_W2 = r"""func loadX509TSATrustStores(ctx context.Context, scheme signature.SigningScheme, policyName string, trustStores []string, x509TrustStore truststore.X509TrustStore) ([]*x509.Certificate, error) {
+	if scheme != signature.SigningSchemeX509 {
+		return nil, truststore.TrustStoreError{Msg: fmt.Sprintf("error while loading the TSA trust store, signing scheme must be notary.x509, but got %s", scheme)}
+	}
+	""" + PO_MK + r"""
+	return selection.certificatesOfType(ctx, truststore.TypeTSA)
+}
+"""
+# IndexByte + slicing, built-in map as the set
+PO_G = r"""func (sel trustStoreSelection) certificatesOfType(ctx context.Context, wantedType truststore.Type) ([]*x509.Certificate, error) {
+	loaded := make(map[string]struct{}, len(sel.trustStores))
+	var certificates []*x509.Certificate
+	for _, trustStore := range sel.trustStores {
+		if _, ok := loaded[trustStore]; ok {
+			continue
+		}
+		sep := strings.IndexByte(trustStore, ':')
+		if sep < 0 {
+			return nil, truststore.TrustStoreError{Msg: fmt.Sprintf("error while loading the trust store, trust policy statement %q is missing separator in trust store value %q. The required format is <TrustStoreType>:<TrustStoreName>", sel.policyName, trustStore)}
+		}
+		if trustStore[:sep] != string(wantedType) {
+			continue
+		}
+		certs, err := sel.x509TrustStore.GetCertificates(ctx, wantedType, trustStore[sep+1:])
+		if err != nil {
+			return nil, err
+		}
+		certificates = append(certificates, certs...)
+		loaded[trustStore] = struct{}{}
+	}
+	return certificates, nil
+}
+"""
+# the same method with strings.Cut and the internal set kept
+PO_G_CUT = r"""func (sel trustStoreSelection) certificatesOfType(ctx context.Context, wantedType truststore.Type) ([]*x509.Certificate, error) {
+	processedStoreSet := set.New[string]()
+	var certificates []*x509.Certificate
+	for _, trustStore := range sel.trustStores {
+		if processedStoreSet.Contains(trustStore) {
+			continue
+		}
+		storeType, name, found := strings.Cut(trustStore, ":")
+		if !found {
+			return nil, truststore.TrustStoreError{Msg: fmt.Sprintf("error while loading the trust store, trust policy statement %q is missing separator in trust store value %q. The required format is <TrustStoreType>:<TrustStoreName>", sel.policyName, trustStore)}
+		}
+		if wantedType != truststore.Type(storeType) {
+			continue
+		}
+		certs, err := sel.x509TrustStore.GetCertificates(ctx, wantedType, name)
+		if err != nil {
+			return nil, err
+		}
+		certificates = append(certificates, certs...)
+		processedStoreSet.Add(trustStore)
+	}
+	return certificates, nil
+}
+"""
+# options struct handed over by pointer, the wanted type travels in it too (a phi of constants stored into the field)
+PO_PTR_TYPE = r"""type storeLoadOptions struct {
+	wanted truststore.Type
+	policy string
+	listed []string
+	source truststore.X509TrustStore
+}
+
+"""
+PO_PTR_CALL = "return loadX509TrustStoresWithType(ctx, &storeLoadOptions{wanted: typeToLoad, policy: policyName, listed: trustStores, source: x509TrustStore})"
+PO_OLD_CALL = "return loadX509TrustStoresWithType(ctx, typeToLoad, policyName, trustStores, x509TrustStore)"
+PO_PTR_W1 = PO_PTR_TYPE + PO_W1_BASE.replace(PO_OLD_CALL, PO_PTR_CALL)
+PO_PTR_W2 = PO_W2_BASE.replace(PO_OLD_CALL, PO_PTR_CALL)
+PO_PTR_G = r"""func loadX509TrustStoresWithType(ctx context.Context, o *storeLoadOptions) ([]*x509.Certificate, error) {
+	processedStoreSet := set.New[string]()
+	var certificates []*x509.Certificate
+	for i := 0; i < len(o.listed); i++ {
+		trustStore := o.listed[i]
+		if processedStoreSet.Contains(trustStore) {
+			continue
+		}
+		storeType, name, found := strings.Cut(trustStore, ":")
+		if !found {
+			return nil, truststore.TrustStoreError{Msg: fmt.Sprintf("error while loading the trust store, trust policy statement %q is missing separator in trust store value %q. The required format is <TrustStoreType>:<TrustStoreName>", o.policy, trustStore)}
+		}
+		if o.wanted != truststore.Type(storeType) {
+			continue
+		}
+		certs, err := o.source.GetCertificates(ctx, o.wanted, name)
+		if err != nil {
+			return nil, err
+		}
+		certificates = append(certificates, certs...)
+		processedStoreSet.Add(trustStore)
+	}
+	return certificates, nil
+}
+"""
+# the object built by a constructor (parameters in another order) / filled in field by field
+PO_CTOR = r"""func newTrustStoreSelection(trustStores []string, x509TrustStore truststore.X509TrustStore, policyName string) trustStoreSelection {
+	return trustStoreSelection{policyName: policyName, trustStores: trustStores, x509TrustStore: x509TrustStore}
+}
+
+"""
+PO_MK_CTOR = "selection := newTrustStoreSelection(trustStores, x509TrustStore, policyName)"
+PO_MK_FIELDS = "var selection trustStoreSelection\n\tselection.x509TrustStore = x509TrustStore\n\tselection.trustStores = trustStores\n\tselection.policyName = policyName"
+# the per-entry body as a second method of the object
+PO_G_ENTRY = r"""func (sel trustStoreSelection) certificatesOfType(ctx context.Context, wantedType truststore.Type) ([]*x509.Certificate, error) {
+	processedStoreSet := set.New[string]()
+	var certificates []*x509.Certificate
+	for _, trustStore := range sel.trustStores {
+		if processedStoreSet.Contains(trustStore) {
+			continue
+		}
+		certs, err := sel.certificatesOfEntry(ctx, wantedType, trustStore)
+		if err != nil {
+			return nil, err
+		}
+		certificates = append(certificates, certs...)
+		processedStoreSet.Add(trustStore)
+	}
+	return certificates, nil
+}
+
+func (sel trustStoreSelection) certificatesOfEntry(ctx context.Context, wantedType truststore.Type, entry string) ([]*x509.Certificate, error) {
+	sep := strings.IndexByte(entry, ':')
+	if sep < 0 {
+		return nil, truststore.TrustStoreError{Msg: fmt.Sprintf("error while loading the trust store, trust policy statement %q is missing separator in trust store value %q. The required format is <TrustStoreType>:<TrustStoreName>", sel.policyName, entry)}
+	}
+	if entry[:sep] != string(wantedType) {
+		return nil, nil
+	}
+	return sel.x509TrustStore.GetCertificates(ctx, wantedType, entry[sep+1:])
+}
+"""
+
+def po(w1=PO_W1, w2=PO_W2, g=PO_G, more=(PO_NOSET,)):
+    return [(H, PO_W1_BASE, w1), (H, PO_W2_BASE, w2), (H, PO_G_BASE, g)] + list(more)
+
+def po_must(s, a, b):
+    assert s.count(a) == 1, a
+    return s.replace(a, b)
+
+SEVENTH = [
+ dict(name='benign-param-object-by-value-method-indexbyte', expect='silent', edits=po()),
+ dict(name='benign-param-object-by-value-method-cut', expect='silent', edits=po(g=PO_G_CUT, more=())),
+ dict(name='benign-param-object-by-pointer-type-in-object', expect='silent', edits=po(PO_PTR_W1, PO_PTR_W2, PO_PTR_G, more=())),
+ dict(name='benign-param-object-from-constructor', expect='silent',
+      edits=po(PO_CTOR + PO_W1.replace(PO_MK, PO_MK_CTOR), PO_W2.replace(PO_MK, PO_MK_CTOR))),
+ dict(name='benign-param-object-filled-field-by-field', expect='silent',
+      edits=po(PO_W1.replace(PO_MK, PO_MK_FIELDS), PO_W2.replace(PO_MK, PO_MK_FIELDS))),
+ dict(name='benign-param-object-per-entry-method', expect='silent', edits=po(g=PO_G_ENTRY, more=())),
+ # broken counterparts
+ dict(name='param-object-stores-field-from-elsewhere', expect='flagged(mapping/stores-passthrough)',
+      edits=po(po_must(PO_W1, "trustStores: trustStores,", 'trustStores: append([]string{"ca:default"}, trustStores...),'))),
+ dict(name='param-object-stores-field-set-twice', expect='flagged(mapping/stores-passthrough)',
+      edits=po(po_must(PO_W1, PO_MK, PO_MK + '\n\tif len(trustStores) == 0 {\n\t\tselection.trustStores = []string{"ca:default"}\n\t}'))),
+ dict(name='param-object-constructor-adds-a-store', expect='flagged(mapping/stores-passthrough)',
+      edits=po(po_must(PO_CTOR, "trustStores: trustStores,", 'trustStores: append(trustStores, "ca:default"),') + PO_W1.replace(PO_MK, PO_MK_CTOR), PO_W2.replace(PO_MK, PO_MK_CTOR))),
+ dict(name='param-object-ca-for-signing-authority', expect='flagged(mapping/)',
+      edits=po(po_must(PO_W1, "certificatesOfType(ctx, truststore.TypeSigningAuthority)", "certificatesOfType(ctx, truststore.TypeCA)"))),
+ dict(name='param-object-unknown-scheme-loads-ca', expect='flagged(mapping/ca)',
+      edits=po(po_must(PO_W1, '\treturn nil, truststore.TrustStoreError{Msg: fmt.Sprintf("error while loading the trust store, unrecognized signing scheme %q", scheme)}\n', '\treturn selection.certificatesOfType(ctx, truststore.TypeCA)\n'))),
+ dict(name='param-object-list-field-overwritten-in-loader', expect='flagged(loader/name-argument)',
+      edits=po(g=po_must(PO_G, "\tvar certificates []*x509.Certificate\n", '\tvar certificates []*x509.Certificate\n\tsel.trustStores = append(sel.trustStores, "ca:default")\n'))),
+ dict(name='param-object-name-from-last-colon', expect='flagged(loader/name-argument)',
+      edits=po(g=po_must(PO_G, "trustStore[sep+1:])", "trustStore[strings.LastIndexByte(trustStore, ':')+1:])"))),
+ dict(name='param-object-name-keeps-colon', expect='flagged(loader/name-argument)',
+      edits=po(g=po_must(PO_G, "trustStore[sep+1:])", "trustStore[sep:])"))),
+ dict(name='param-object-type-filter-removed', expect='flagged(loader/type-filter)',
+      edits=po(g=po_must(PO_G, "\t\tif trustStore[:sep] != string(wantedType) {\n\t\t\tcontinue\n\t\t}\n", ""))),
+ dict(name='param-object-load-error-skipped', expect='flagged(loader/load-error-fail-closed)',
+      edits=po(g=po_must(PO_G, "\t\tif err != nil {\n\t\t\treturn nil, err\n\t\t}\n", "\t\tif err != nil {\n\t\t\tcontinue\n\t\t}\n"))),
+ dict(name='param-object-by-pointer-list-widened-by-helper', expect='flagged(loader/name-argument)',
+      edits=po(PO_PTR_W1, PO_PTR_W2,
+               po_must(PO_PTR_G, "\tvar certificates []*x509.Certificate\n", "\tvar certificates []*x509.Certificate\n\twidenStoreList(o)\n") +
+               '\nfunc widenStoreList(o *storeLoadOptions) {\n\to.listed = append(o.listed, "ca:default")\n}\n', more=())),
+ dict(name='param-object-by-pointer-type-field-constant-ca', expect='flagged(mapping/)',
+      edits=po(po_must(PO_PTR_W1, PO_PTR_CALL, "typeToLoad = truststore.TypeCA\n\t" + PO_PTR_CALL), PO_PTR_W2, PO_PTR_G, more=())),
+ dict(name='param-object-by-pointer-type-set-after-the-test', expect='flagged(mapping/)',
+      edits=po(po_must(PO_PTR_W1, PO_PTR_CALL, "o := &storeLoadOptions{wanted: typeToLoad, policy: policyName, listed: trustStores, source: x509TrustStore}\n\tif len(trustStores) == 1 {\n\t\to.wanted = truststore.TypeCA\n\t}\n\treturn loadX509TrustStoresWithType(ctx, o)"), PO_PTR_W2, PO_PTR_G, more=())),
+ # further members: options by value as a plain argument; pointer receiver
+ dict(name='benign-param-object-by-value-argument-type-in-object', expect='silent',
+      edits=po(PO_PTR_W1.replace("&storeLoadOptions{", "storeLoadOptions{"), PO_PTR_W2.replace("&storeLoadOptions{", "storeLoadOptions{"),
+               po_must(PO_PTR_G, "o *storeLoadOptions", "o storeLoadOptions"), more=())),
+ dict(name='param-object-by-value-argument-list-extended', expect='flagged(mapping/stores-passthrough)',
+      edits=po(po_must(PO_PTR_W1, "&storeLoadOptions{wanted: typeToLoad, policy: policyName, listed: trustStores,", 'storeLoadOptions{wanted: typeToLoad, policy: policyName, listed: append(trustStores, "ca:default"),'),
+               PO_PTR_W2.replace("&storeLoadOptions{", "storeLoadOptions{"), po_must(PO_PTR_G, "o *storeLoadOptions", "o storeLoadOptions"), more=())),
+ dict(name='benign-param-object-pointer-receiver', expect='silent',
+      edits=po(PO_PTR_W1.replace("loadX509TrustStoresWithType(ctx, &storeLoadOptions{", "(&storeLoadOptions{").replace("source: x509TrustStore})", "source: x509TrustStore}).certificates(ctx)"),
+               PO_PTR_W2.replace("loadX509TrustStoresWithType(ctx, &storeLoadOptions{", "(&storeLoadOptions{").replace("source: x509TrustStore})", "source: x509TrustStore}).certificates(ctx)"),
+               po_must(PO_PTR_G, "func loadX509TrustStoresWithType(ctx context.Context, o *storeLoadOptions)", "func (o *storeLoadOptions) certificates(ctx context.Context)"), more=())),
+ dict(name='param-object-pointer-receiver-type-swapped-inside', expect='flagged(loader/)',
+      edits=po(PO_PTR_W1.replace("loadX509TrustStoresWithType(ctx, &storeLoadOptions{", "(&storeLoadOptions{").replace("source: x509TrustStore})", "source: x509TrustStore}).certificates(ctx)"),
+               PO_PTR_W2.replace("loadX509TrustStoresWithType(ctx, &storeLoadOptions{", "(&storeLoadOptions{").replace("source: x509TrustStore})", "source: x509TrustStore}).certificates(ctx)"),
+               po_must(po_must(PO_PTR_G, "func loadX509TrustStoresWithType(ctx context.Context, o *storeLoadOptions)", "func (o *storeLoadOptions) certificates(ctx context.Context)"),
+                       "\tvar certificates []*x509.Certificate\n", "\tvar certificates []*x509.Certificate\n\tif len(o.listed) == 1 {\n\t\to.wanted = truststore.TypeCA\n\t}\n"), more=())),
+ dict(name='param-object-per-entry-method-foreign-entry', expect='flagged(loader/name-argument)',
+      edits=po(g=po_must(PO_G_ENTRY, "sel.certificatesOfEntry(ctx, wantedType, trustStore)", 'sel.certificatesOfEntry(ctx, wantedType, "ca:"+sel.policyName)'), more=())),
+ dict(name='param-object-per-entry-method-type-from-listing', expect='flagged(loader/type-argument)',
+      edits=po(g=po_must(PO_G_ENTRY, "GetCertificates(ctx, wantedType, entry[sep+1:])", "GetCertificates(ctx, truststore.Type(entry[:sep]), entry[sep+1:])"), more=())),
+]
+
+
 VARIANTS = [
  dict(name='type-filter-removed', file=H, expect='flagged(loader/type-filter)',
       find='\t\tif trustStoreType != truststore.Type(storeType) {\n\t\t\tcontinue\n\t\t}\n', replace='\t\t_ = storeType\n'),
@@ -974,5 +1252,5 @@ VARIANTS = [
       replace='\t\tif err != nil {\n\t\t\treturn nil, fmt.Errorf("store %s: %w", name, err)\n\t\t}\n\t\tcertificates = append(certificates, certs...)'),
 
  # ---- second pass: shapes accepted by class (extra_c03.go) -------------------------------------------------------------
-] + SECOND_PASS + THIRD + FOURTH + FIFTH + SIXTH
+] + SECOND_PASS + THIRD + FOURTH + FIFTH + SIXTH + SEVENTH
 
